@@ -873,7 +873,16 @@ def check_creds_mirror(ctx, tool):
     for d in walk_no_nested(tool.node):
         if not (isinstance(d, ast.Dict) and any(k is None for k in d.keys)):
             continue
-        last = max(i for i, k in enumerate(d.keys) if k is None)
+        # (a spread of a display written right there has known keys: only
+        # a spread of a mapping that comes from outside can hide a key)
+        spreads = [i for i, k in enumerate(d.keys) if k is None and not all(
+            isinstance(x, ast.Dict) and all(kk is not None for kk in x.keys)
+            for x in ([d.values[i]] if not isinstance(
+                d.values[i], ast.IfExp) else [d.values[i].body,
+                                              d.values[i].orelse]))]
+        if not spreads:
+            continue
+        last = max(spreads)
         early = [k for k in d.keys[:last] if isinstance(k, ast.Constant)]
         ctx.ob('C19.CREDS', not early, ctx.where(tool.module, d), tool.qual,
                'credentials display %s' % U(d)[:60],
